@@ -64,7 +64,13 @@ def main(argv, doc):
     if replay:
         import replaylib
         return replaylib.run_replay(pid, replay)
-    return run_check(pid, tier, seed)
+    try:
+        return run_check(pid, tier, seed)
+    finally:
+        if os.environ.get("VERIF_NO_EVIDENCE"):
+            # scratch runs (seeded corpus, matrix) leave nothing behind but their replay files
+            import shutil
+            shutil.rmtree(os.path.join(VERIF, "build", pid + "-scratch-%d" % os.getpid()), ignore_errors=True)
 
 
 def undecided(pid, tier, seed, t0, reason, extra=None):
@@ -98,6 +104,7 @@ def run_check(pid, tier, seed):
 
     failures_mine = []          # failures attributed to this property
     other_failures = []
+    failures_all = []
     coverage = {}
     trusted = []
     units = []
@@ -158,6 +165,8 @@ def run_check(pid, tier, seed):
             hit = [d.get("message", "")[:160] for d in rl]
             return finish_undecided_or_replay(pid, tier, seed, t0, "SMT resource limit: " + "; ".join(hit[:3]), plan)
         for f in failures:
+            f["source"] = "verus"
+            failures_all.append(f)
             (failures_mine if pid in f["props"] else other_failures).append(f)
         # a unit counts against this property only if one of its failures is attributed to this property
         kf_mine = [k for k in known.get("findings", []) if k["property"] == pid]
@@ -318,6 +327,35 @@ def run_check(pid, tier, seed):
         else:
             violations.append(f)
 
+    # ---- triage of verifier-only failures (DESIGN 3.4).  An obligation that no longer discharges is a violation of THIS
+    # property when the bounded search confirms it on the real crate, or when nothing better is known.  When the same
+    # function's failures are also attributed to another property and only THAT property is confirmed by a concrete failing
+    # history, this property's failed obligation is collateral of the same edit (its proof leaned on the broken fact): it
+    # is reported as undecided, not as an alarm.
+    collateral_undecided = None
+    vv = [f for f in violations if f.get("source") == "verus" and f.get("found_history") is None]
+    if vv:
+        import replaydriver
+        ok_self, found_self, cmd_self = replaydriver.search_cached(pid, seed)
+        if ok_self:
+            for f in vv:
+                f["found_history"], f["found_cmd"] = found_self, cmd_self.replace("cd /verif/replay && ", "")
+        else:
+            fns = set(f.get("fn") for f in vv)
+            others = set()
+            for f in failures_all:
+                if f.get("fn") in fns:
+                    others.update(f.get("props", []))
+            others.discard(pid)
+            confirmed = [q for q in sorted(others) if replaydriver.search_cached(q, seed)[0]]
+            coverage["triage"] = {"verifier_only_failures": sorted(set(l for f in vv for l in f["labels"])) or sorted(str(x) for x in fns),
+                                  "no_failing_history_for": pid, "other_properties_of_the_same_functions": sorted(others), "confirmed_on_real_crate": confirmed}
+            if confirmed:
+                violations = [f for f in violations if f not in vv]
+                collateral_undecided = ("obligation(s) %s of %s no longer discharge, but the bounded search found no failing history for %s while it "
+                                        "confirmed a violation of %s in the same function(s): treated as collateral of that violation") % (
+                    sorted(set(l for f in vv for l in f["labels"]))[:4], sorted(str(x) for x in fns)[:3], pid, ",".join(confirmed))
+
     rc = 0
     replay_paths = []
     if violations:
@@ -335,8 +373,8 @@ def run_check(pid, tier, seed):
         rc = 1
     for l in kf_lines:
         print(l)
-    if rc == 0 and tentative_undecided:
-        return undecided(pid, tier, seed, t0, tentative_undecided)
+    if rc == 0 and (tentative_undecided or collateral_undecided):
+        return undecided(pid, tier, seed, t0, tentative_undecided or collateral_undecided)
 
     n_obl = len(units)
     n_ok = sum(1 for _, ok in units if ok)
